@@ -1,4 +1,5 @@
 """C10 - stream consumers account for every test exactly once."""
+import codecs
 import collections
 import itertools
 
@@ -17,7 +18,9 @@ RULE = ("Hypothesis-generated (and, for short lengths, exhaustively enumerated) 
         "Also (random and as a small exhaustive grid): the file name '', the routes '' / None, a latin-1 log (valid in its declared charset, not valid UTF-8), "
         "a stamp ahead of the real clock, 26 / 130 tests never finished, a wrapped result with failfast set, a caller passing the same set object for equal tags; "
         "content types (StreamToDict and the wrapped result) are compared with a table written in the check; a chunk after an eof chunk of the same "
-        "attachment may be concatenated or discarded (one reading per case). "
+        "attachment may be concatenated or discarded, events after a final status of the same id + route may start a new "
+        "test or be discarded until the run stops (one combination of readings per case); the statuses sent are the ones "
+        "the StreamResult.status docstring lists. "
         "Non-trivial: >=2 test ids "
         "interleaved (events of another key between first and last event of a key), or one id on two "
         "routes, or an id reused after a final status; distinct = distinct canonical event list.")
@@ -40,23 +43,44 @@ ASSUMPTIONS = [
     "the same set object again for equal tags",
     "the meaning of the mime strings of the alphabets is tabulated in MIME_TABLE; only a mime string outside the table "
     "(hand-written replay) is parsed with the library's private _make_content_type",
+    "events that follow a final status of the same test id + route code: StreamResult.status says they 'may be discarded "
+    "or associated with a new test'; both readings are accepted (a new test, as the code does; or discarded until "
+    "stopTestRun), the whole case - all three consumers - must follow one of them",
+    "'exists' at StreamToExtendedDecorator (the extended API has no call for it): either the event is dropped whole (the "
+    "code) or only its status is dropped and its chunk/tags/timestamp still reach a test that is in progress; an 'exists' "
+    "that closes a test in progress without any report is NOT accepted ('reported when its final status arrives, or as "
+    "incomplete when the run stops'; it is what the stored changes C10-r6-1 / C10-r7-1 do)",
+    "'first timestamp' is read as the timestamp of the first event received for the test, None when that event carried "
+    "none (StreamToDict docstring: 'the first one received with this test id'); a consumer that back-fills it with the "
+    "first non-None timestamp of a later event is reported at StreamToDict (stored changes C10-r2-2, C10-r5-3, C10-r6-2)",
+    "content type parameters are expected verbatim, except 'charset', which is compared by the codec it names "
+    "(codecs.lookup: 'utf8' == 'utf-8')",
+    "an explicit test_status='unknown' is not sent (it is in the library's FINAL_STATES but not among the values the "
+    "status() docstring lists); in a hand-written replay the model treats it as final",
 ]
 
 OUTCOME_OF = {"success": "addSuccess", "skip": "addSkip", "fail": "addFailure",
               "xfail": "addExpectedFailure", "uxsuccess": "addUnexpectedSuccess"}
 
 
-def reference(events, eof_closes=False):
+def reference(events, eof_closes=False, discard_after_final=False):
     """Segment the stream per (test_id, route_code).  Returns (finals in order, flushed).
 
     ``eof_closes``: the documented reading of ``eof`` ("any additional chunks with the same name should be
-    treated as an error and discarded") instead of plain concatenation; the statement allows both."""
+    treated as an error and discarded") instead of plain concatenation; the statement allows both.
+
+    ``discard_after_final``: StreamResult.status says that after a final status further events of the same
+    test_id+route_code "may be discarded or associated with a new test"; False is "a new test" (what the code
+    does), True is "discarded" (until the run stops)."""
     open_ = collections.OrderedDict()
     finals = []
+    done = set()
     for ev in events:
         if ev["test_id"] is None:
             continue
         key = (ev["test_id"], ev["route_code"])
+        if discard_after_final and key in done:
+            continue
         rec = open_.get(key)
         if rec is None:
             rec = open_[key] = {"id": ev["test_id"], "route": ev["route_code"], "status": "unknown",
@@ -75,6 +99,7 @@ def reference(events, eof_closes=False):
             rec["tags"] = frozenset(ev["test_tags"])
         if ev["test_status"] in streams.FINAL:
             finals.append(open_.pop(key))
+            done.add(key)
     flushed = list(open_.values())
     for rec in flushed:
         rec["last"] = None
@@ -101,6 +126,21 @@ MIME_TABLE = {
 }
 
 
+def _ct_tuple(ct):
+    """(type, subtype, parameters) of a content type, the charset spelled the way ``codecs`` spells it (a consumer
+    that hands on 'utf-8' for 'utf8' names the same charset)."""
+    if not isinstance(ct, tuple):
+        ct = (getattr(ct, "type", None), getattr(ct, "subtype", None), getattr(ct, "parameters", None))
+    params = dict(ct[2] or {})
+    cs = params.get("charset")
+    if isinstance(cs, str):
+        try:
+            params["charset"] = codecs.lookup(cs).name
+        except LookupError:
+            pass
+    return (ct[0], ct[1], params)
+
+
 def _mime_ok(vs, who, rec, name, ct):
     mimes = rec["files"][name]["mimes"]
     if len(mimes) != 1:
@@ -108,11 +148,10 @@ def _mime_ok(vs, who, rec, name, ct):
     mime = next(iter(mimes))
     if mime in MIME_TABLE:
         want = MIME_TABLE[mime]
-        got = (getattr(ct, "type", None), getattr(ct, "subtype", None), dict(getattr(ct, "parameters", None) or {}))
     else:       # a mime string from a hand-written replay: ask the library's parser
         from testtools.testresult.real import _make_content_type
-        want, got = _make_content_type(mime), ct
-    if got != want:
+        want = _make_content_type(mime)
+    if _ct_tuple(ct) != _ct_tuple(want):
         vs.append(V("attachment-type", who, "file %r has content type %r, events said %r (%r)" % (name, ct, mime, want)))
 
 
@@ -267,21 +306,51 @@ def send(result, ev, npos, cache=None):
     result.status(*args, **kw)
 
 
-def _canon_all(events, eof_closes):
-    finals, flushed = reference(events, eof_closes)
+def _canon_all(events, eof_closes, discard_after_final=False):
+    finals, flushed = reference(events, eof_closes, discard_after_final)
     return [_canon_model(r) for r in finals], sorted((_canon_model(r) for r in flushed), key=_report_key)
 
 
 def run_case(spec):
-    """The statement does not say what a chunk that follows an ``eof`` chunk of the same attachment does: the
-    code concatenates it, the StreamResult.status docstring says it is discarded.  Either reading is accepted
-    (the whole case must follow one of them)."""
-    case = _run(spec, False)
-    if case.violations and _canon_all(spec["events"], False) != _canon_all(spec["events"], True):
-        alt = _run(spec, True)
-        if not alt.violations:
-            return alt
-    return case
+    """Two points on which the statement is silent and the StreamResult.status docstring allows more than the code
+    does: a chunk that follows an ``eof`` chunk of the same attachment (the code concatenates it, the docstring
+    says it is discarded) and events that follow a final status of the same id + route ("may be discarded or
+    associated with a new test"; the code starts a new test).  Every reading is accepted - the whole case must
+    follow one combination of them."""
+    first, tried = None, []
+    for eof_closes, discard in ((False, False), (True, False), (False, True), (True, True)):
+        canon = _canon_all(spec["events"], eof_closes, discard)
+        if canon in tried:
+            continue
+        tried.append(canon)
+        case = _run(spec, eof_closes, discard)
+        if not case.violations:
+            return case
+        if first is None:
+            first = case
+    return first
+
+
+def _s2e_events(events, exists_keeps_data):
+    """What StreamToExtendedDecorator works on.  The extended API has no call for 'exists': the code drops such an
+    event whole (False).  Also accepted (True): only the *status* is dropped - what the event carries (chunk, tags,
+    timestamp) still goes to a test that is in progress, an 'exists' for a test that is not in progress is dropped."""
+    if not exists_keeps_data:
+        return [e for e in events if e["test_status"] != "exists"]
+    out, open_ = [], set()
+    for e in events:
+        key = (e["test_id"], e["route_code"])
+        if e["test_status"] == "exists":
+            if e["test_id"] is not None and key in open_:
+                out.append(dict(e, test_status=None))
+            continue
+        out.append(e)
+        if e["test_id"] is not None:
+            if e["test_status"] in streams.FINAL:
+                open_.discard(key)
+            else:
+                open_.add(key)
+    return out
 
 
 def _tid(test):
@@ -291,11 +360,11 @@ def _tid(test):
         return ("not-a-test", repr(test), type(e).__name__)
 
 
-def _run(spec, eof_closes):
+def _run(spec, eof_closes, discard_after_final=False):
     from testtools.testresult.real import StreamToDict, StreamSummary, StreamToExtendedDecorator
     events = spec["events"]
     npos = list(spec.get("npos", [])) + [0] * len(events)
-    finals, flushed = reference(events, eof_closes)
+    finals, flushed = reference(events, eof_closes, discard_after_final)
     vs = []
     cache = {} if spec.get("share") else None
 
@@ -399,7 +468,6 @@ def _run(spec, eof_closes):
             send(s2e, ev, n, cache)
         n_out_before = len([e for e in ext.events if e[0].startswith("add")])
         s2e.stopTestRun()
-    f2, x2 = reference([e for e in events if e["test_status"] != "exists"], eof_closes)
     brackets, cur = [], None
     shape_ok = True
     for e in ext.events:
@@ -423,8 +491,6 @@ def _run(spec, eof_closes):
     if not shape_ok or any(len(b) != 3 or not (_tid(b[0][1]) == _tid(b[1][1]) == _tid(b[2][1])) for b in brackets):
         vs.append(V("extended", "bracket-shape", "not one startTest/outcome/stopTest bracket per test: %r" % [e[0] for e in ext.events]))
     else:
-        if n_out_before != len(f2):
-            vs.append(V("exactly-once", "StreamToExtended-timing", "%d outcomes before stopTestRun, %d final statuses" % (n_out_before, len(f2))))
         got, dets = [], []
         for b in brackets:
             start, out, stop = b
@@ -451,11 +517,17 @@ def _run(spec, eof_closes):
             if w[4] is not None and g[4] != w[4]:
                 return False
             return True
-        wf = [want_of(r) for r in f2]
-        wx = [want_of(r) for r in x2]
-        if len(got) != len(wf) + len(wx):
-            vs.append(V("exactly-once", "StreamToExtended-count", "%d brackets, model expects %d+%d" % (len(got), len(wf), len(wx))))
-        else:
+
+        def compare(s2e_events):
+            vs = []
+            f2, x2 = reference(s2e_events, eof_closes, discard_after_final)
+            if n_out_before != len(f2):
+                vs.append(V("exactly-once", "StreamToExtended-timing", "%d outcomes before stopTestRun, %d final statuses" % (n_out_before, len(f2))))
+            wf = [want_of(r) for r in f2]
+            wx = [want_of(r) for r in x2]
+            if len(got) != len(wf) + len(wx):
+                vs.append(V("exactly-once", "StreamToExtended-count", "%d brackets, model expects %d+%d" % (len(got), len(wf), len(wx))))
+                return vs
             for g, w, rec, det in zip(got, wf, f2, dets):
                 if not same(g, w, None):
                     vs.append(V("report-content", "StreamToExtended", "bracket %r, model expects %r" % (g, w)))
@@ -471,6 +543,12 @@ def _run(spec, eof_closes):
                 acc = [[same(g, w, None) for g in rest] for w in wx]
                 if _max_matching(acc) != len(wx):
                     vs.append(V("report-content", "StreamToExtended-incomplete", "incomplete tests %r cannot be matched one-to-one with the brackets %r" % (wx, rest)))
+            return vs
+        dropped, kept_data = _s2e_events(events, False), _s2e_events(events, True)
+        found = compare(dropped)
+        if found and kept_data != dropped and not compare(kept_data):
+            found = []      # the other reading of 'exists' at this consumer (see _s2e_events)
+        vs.extend(found)
 
     # ---- non-triviality
     keys = [(e["test_id"], e["route_code"]) for e in events if e["test_id"] is not None]
@@ -496,7 +574,11 @@ def _run(spec, eof_closes):
 LATIN_NAME = "l1"       # a text attachment whose bytes are valid in its declared charset and are NOT valid UTF-8
 LATIN_MIMES = ("text/plain; charset=latin-1", 'text/x-log;charset="iso-8859-1"')
 LATIN_CHUNKS = (b"caf\xe9", b"", b"\xe9t\xe9\n")
-BASE_EVENT = streams.event(ids=(None, "a", "b", "c", "0/a", ""),
+# the statuses the StreamResult.status docstring lists; an explicit "unknown" (in the library's private FINAL_STATES,
+# not among the documented values) is not sent
+STATUSES = streams.INTERIM + streams.INTERIM + tuple(x for x in streams.FINAL if x != "unknown")
+PRELUDE_EVENT = streams.event(statuses=STATUSES)
+BASE_EVENT = streams.event(ids=(None, "a", "b", "c", "0/a", ""), statuses=STATUSES,
                            routes=st.one_of(streams.ROUTE, streams.ROUTE, streams.ROUTE, streams.ROUTE, streams.ROUTE, st.just("")),
                            stamps=(None, 0, 1, 2, 3, 5, "usec", "tz", "naive", "future"))
 
@@ -566,7 +648,7 @@ def subchecks(tier):
     return [
         Sub("random_streams", run_case, st.fixed_dictionaries({"events": EVENTS, "npos": NPOS, "mode": st.sampled_from(["one-by-one", "lockstep"]),
                                                                "failfast": st.sampled_from([False, False, True]), "share": st.booleans(),
-                                                               "prelude": st.one_of(st.none(), st.none(), st.lists(streams.event(), max_size=6))}),
+                                                               "prelude": st.one_of(st.none(), st.none(), st.lists(PRELUDE_EVENT, max_size=6))}),
             2500 if q else 150000),
         Sub("many_open_tests_and_big_attachments", run_case, enum=_enum_many_open, enum_complete=True,
             note="65 / 300 / 1100 tests in progress at once; attachments of 3 x 5000, 3 x 70000, 3 x 1 MiB bytes"),
